@@ -6,7 +6,8 @@ EXPLANATION = 'Mixed. P: util.metadata_from_many (legacy and footer-gathering pa
 
 def p_parts():
     from ._many import p_many
-    return [p_many]
+    from ._cats import p_cats
+    return [p_many, p_cats]
 
 
 def run(ctx):
